@@ -220,6 +220,60 @@ fn parse_id(id: &str) -> Option<(String, bool, u64, usize, u64, bool)> {
     Some((t[1].to_string(), t[2] == "C", t[3].parse().ok()?, t[4].parse().ok()?, t[5].parse().ok()?, t[6] == "1"))
 }
 
+/// quiet spells: reads that fail because nothing arrives in time (blocking: the socket read timeout; tokio: the caller's own
+/// timeout around read(), which drops the future), at several points of a session; everything sent afterwards must still be
+/// delivered intact and in order.  Returns (results in order without the transient ones, number of failed reads seen).
+fn quiet_case(imp: &str, rt: &tokio::runtime::Runtime, fr: &Frames, idx: &RepIndex, dgs: &[Vec<u8>], quiet_before: &[usize]) -> (Vec<String>, usize) {
+    let (a, b) = pair();
+    let mut trace = vec![]; let mut failed = 0usize; let mut sent = 0usize;
+    let nres = fr.frames.len() + 1;
+    if imp == "B" {
+        a.set_read_timeout(Some(Duration::from_millis(25))).unwrap();
+        let mut f = BFramed::new(Box::new(BUdp::from(a)), Codec::new(mode_of(fr.compressed)));
+        let mut pending = 0usize; // frames sent but not yet returned
+        let mut guard_loops = 0;
+        while trace.len() < nres && guard_loops < 10 * nres + 50 { guard_loops += 1;
+            if pending == 0 {
+                if quiet_before.contains(&sent) && failed < 3 * quiet_before.len() {
+                    // nothing is sent: this read must fail with a timeout, and the connection must be usable afterwards
+                    match guard(|| f.read()) { Some(Err(e)) => { let (tok, fin) = err_token(&e); if fin { trace.push(tok); break; } failed += 1; }, Some(Ok(p)) => { trace.push(format!("UNEXPECTED:{}", idx.token(&p))); break; }, None => { trace.push("PANIC".into()); break; } }
+                    if failed % 2 == 1 { continue; } // two quiet reads in a row at this point
+                }
+                if sent < dgs.len() { b.send(&dgs[sent]).unwrap(); pending = if dgs[sent].is_empty() { 1 } else { count_frames(fr.compressed, &dgs[sent]) }; sent += 1; } else { break; }
+            }
+            match guard(|| f.read()) {
+                None => { trace.push("PANIC".into()); break; },
+                Some(Ok(p)) => { trace.push(idx.token(&p)); pending -= 1; },
+                Some(Err(e)) => { let (tok, fin) = err_token(&e); if is_transient_tok(&tok) { failed += 1; if failed > 40 { trace.push("STUCK".into()); break; } } else { trace.push(tok); pending = pending.saturating_sub(1); if fin { break; } } },
+            }
+        }
+    } else {
+        a.set_nonblocking(true).unwrap();
+        let _g = rt.enter();
+        let mut f = AFramed::new(Box::new(AUdp::from(tokio::net::UdpSocket::from_std(a).unwrap())), Codec::new(mode_of(fr.compressed)));
+        let mut pending = 0usize; let mut guard_loops = 0;
+        while trace.len() < nres && guard_loops < 10 * nres + 50 { guard_loops += 1;
+            if pending == 0 {
+                if quiet_before.contains(&sent) && failed < 2 * quiet_before.len() {
+                    let r = guard(|| rt.block_on(async { tokio::time::timeout(Duration::from_millis(20), f.read()).await }));
+                    match r { Some(Err(_)) => failed += 1, Some(Ok(Ok(p))) => { trace.push(format!("UNEXPECTED:{}", idx.token(&p))); break; }, Some(Ok(Err(e))) => { let (tok, fin) = err_token(&e); trace.push(tok); if fin { break; } }, None => { trace.push("PANIC".into()); break; } }
+                    if failed % 2 == 1 { continue; }
+                }
+                if sent < dgs.len() { b.send(&dgs[sent]).unwrap(); pending = if dgs[sent].is_empty() { 1 } else { count_frames(fr.compressed, &dgs[sent]) }; sent += 1; } else { break; }
+            }
+            let r = guard(|| rt.block_on(async { tokio::time::timeout(Duration::from_secs(3), f.read()).await }));
+            match r {
+                None => { trace.push("PANIC".into()); break; },
+                Some(Err(_)) => { trace.push("STALLED".into()); break; },
+                Some(Ok(Ok(p))) => { trace.push(idx.token(&p)); pending -= 1; },
+                Some(Ok(Err(e))) => { let (tok, fin) = err_token(&e); trace.push(tok); pending = pending.saturating_sub(1); if fin { break; } },
+            }
+        }
+    }
+    (trace, failed)
+}
+fn count_frames(compressed: bool, d: &[u8]) -> usize { let mut i = 0; let mut n = 0; while i < d.len() { let l = d[i] as usize * if compressed { 4 } else { 1 }; if l == 0 { break; } i += l; n += 1; } n }
+
 fn write_case(imp: &str, rt: &tokio::runtime::Runtime, compressed: bool, packets: &[Packet]) -> (Vec<Vec<u8>>, Vec<Vec<u8>>) {
     let (a, b) = pair();
     b.set_nonblocking(true).unwrap();
@@ -257,6 +311,19 @@ pub fn run(a: &Args) {
             let (tr, used) = adaptor_run(t[0], &rt, &dgs, &mut next);
             let want = adaptor_expect(&dgs, &used);
             if tr == want { println!("PASS"); std::process::exit(0) } else { println!("FAIL adaptor chunks differ from the datagram payloads\n got  {}\n want {}", &tr[..tr.len().min(300)], &want[..want.len().min(300)]); std::process::exit(1) }
+        }
+        if let Some(rest) = r.strip_prefix("quiet ") {
+            let t: Vec<&str> = rest.split_whitespace().collect(); let compressed = t[1] == "C"; let seed: u64 = t[2].parse().unwrap(); let rep: u64 = t[3].parse().unwrap();
+            let mut r2 = Rng::new(seed ^ (0xC08 + rep));
+            let pool = frame_pool(&mut r2, compressed);
+            let frames: Vec<Vec<u8>> = (0..30).map(|_| r2.pick(&pool).clone()).collect();
+            let fr = Frames::new(compressed, frames); let idx = RepIndex::new(&fr);
+            let packed = pack(&mut r2, &fr.frames, 2);
+            let mut dgs: Vec<Vec<u8>> = packed.iter().map(|g| g.concat()).collect(); dgs.push(vec![]);
+            let quiet: Vec<usize> = vec![0, 1, dgs.len() / 2, dgs.len() - 1];
+            let (trace, failed) = quiet_case(t[0], &rt, &fr, &idx, &dgs, &quiet);
+            let want: Vec<String> = fr.expected(false).into_iter().filter(|t| !t.starts_with('W')).collect();
+            if trace == want { println!("PASS ({failed} quiet reads)"); std::process::exit(0) } else { println!("FAIL [C08] after {failed} reads that failed for lack of traffic: got {} want {}", trace.join(" "), want.join(" ")); std::process::exit(1) }
         }
         if let Some(rest) = r.strip_prefix("write ") {
             let t: Vec<&str> = rest.split_whitespace().collect();
@@ -311,6 +378,25 @@ pub fn run(a: &Args) {
         let _ = run_session_case(&id, &case, &rt, &mut st, if total < 40_000 { Some(&mut out) } else { None }, &mut rng);
         if total > 6120 && case.groups.iter().any(|g| *g > 1) && distinct.insert(fnv(&id)) { st.distinct_nontrivial += 1; }
     }
+    // (b') quiet spells in the middle of a session
+    for compressed in [true, false] { for imp in ["B", "A"] { for rep in 0..(if a.thorough() { 12 } else { 3 }) {
+        let mut r2 = Rng::new(a.seed ^ (0xC08 + rep as u64));
+        let pool = frame_pool(&mut r2, compressed);
+        let frames: Vec<Vec<u8>> = (0..30).map(|_| r2.pick(&pool).clone()).collect();
+        let fr = Frames::new(compressed, frames); let idx = RepIndex::new(&fr);
+        let packed = pack(&mut r2, &fr.frames, 2);
+        let mut dgs: Vec<Vec<u8>> = packed.iter().map(|g| g.concat()).collect(); dgs.push(vec![]);
+        let quiet: Vec<usize> = vec![0, 1, dgs.len() / 2, dgs.len() - 1];
+        let (trace, failed) = quiet_case(imp, &rt, &fr, &idx, &dgs, &quiet);
+        st.evaluations += 1; st.distinct_nontrivial += 1;
+        let want: Vec<String> = fr.expected(false).into_iter().filter(|t| !t.starts_with('W')).collect();
+        if trace != want {
+            let pos = trace.iter().zip(want.iter()).position(|(x, y)| x != y).unwrap_or(trace.len().min(want.len()));
+            st.fail(format!("[C08 {}] after {failed} reads that failed for lack of traffic, result #{pos} of {}: got {:?} want {:?}", if imp == "B" { "blocking" } else { "tokio" }, want.len(), trace.get(pos), want.get(pos)), format!("quiet {imp} {} {} {rep}", mode_tag(compressed), a.seed));
+        }
+        if failed == 0 { st.fail("[C08 harness] no read failed in a quiet-spell session".into(), format!("quiet {imp} {} {} {rep}", mode_tag(compressed), a.seed)); }
+        st.add("reads failed for lack of traffic (quiet spells)", failed as u64);
+    } } }
     // (c) writes
     for compressed in [true, false] {
         let mut packets: Vec<Packet> = crate::gen::kinds::default_packets();
